@@ -19,6 +19,9 @@ CHECKS = {
  "C05": dict(cat="translation_validation", tech="state-repeat divergence certificates computed and re-checked by the extracted Coq machine; backends observed in child processes",
    text="Programs are classified by the extracted canonical machine: halting, or divergent with a state-repeat certificate re-validated by the Coq function cert_ok. Certified-divergent programs must not return from any backend/level within the window and their streamed events must be a prefix of the certified periodic word; halting programs must return with the canonical events.",
    note="Non-return is observed through a wall-clock window.", ref="§4 C05"),
+ "C06": dict(cat="exploration", tech="guard-page allocator runs of all backends on roaming programs; index discipline proved on Tape.v (C09_raw_in_bounds)",
+   text="While an executor runs, every heap allocation is placed flush against PROT_NONE pages (left-flush and right-flush runs, debug and release); roaming programs (moves of thousands of cells, scans, revisits) must not fault and must produce the canonical events. The model-level statement (no raw index outside [0,size), refinement of the unbounded tape) is theorem C09_raw_in_bounds/C09_tape_refines for the Memory API; BCRaw.v (one-sided probes) is not built yet.",
+   note="Observation of the implementation under an adversarial allocator; not a proof about Rust pointer arithmetic or machine code.", ref="§4 C06"),
  "C07": dict(cat="translation_validation", tech="limited-run engine models (Inplace.v/IR.v/BC.v with budget) vs execute_limited; property conditions checked against canonical classification",
    text="For every program (halting or certified divergent) x backend x level x budget: (finished, events) must satisfy the property (prefix / complete when finished / finished at 2^62 / never finished when divergent) and equal the result of the budgeted Coq engine models for the three interpreters.",
    note="Time bound observed by wall clock only.", ref="§4 C07"),
@@ -28,9 +31,21 @@ CHECKS = {
  "C09": dict(cat="proof", tech="Coq refinement proof Tape.v => unbounded array (policy-parametric) + contract correspondence on Memory via verif_raw",
    text="Theorems (all histories within the magnitude guard, every growth policy satisfying PolicyOK, rust_policy proved to satisfy it): reads return the latest write or 0, reads are pure, requested/written ranges test accessible, growth preserves contents and logical pointer, no raw index outside [0,size). Tied to src/runtime.rs on every run: random histories on Memory<u8..u64> (debug+release) must agree with the model's reads, and the growth contract is checked on the implementation through the verif_raw hook.",
    note="Tape.v hand-written; byte-level pointer arithmetic not modelled (observed by guard pages in C06); magnitudes bounded by 2^60 / sizes < 2^62.", ref="§4 C09"),
+ "C15": dict(cat="exploration", tech="Expr.v exact model of ir::Expr (all public ops): structural equality of results + independent arithmetic oracle on random expression programs",
+   text="Expression programs over a register file (val,var,add,mul,neg,half,normalize,symb_evaluate and all decompositions), four widths, coefficients biased to the half-modulus: the implementation's exact part lists and values must equal the extracted Coq model, and values must satisfy an independent arithmetic oracle (homomorphism, recomposition).",
+   note="Homomorphism theorems (eval_add, eval_mul, eval_normalize, ...) not proved yet; until then exploration with a Coq-defined executable model.", ref="§4 C15"),
  "C17": dict(cat="fault_enumeration", tech="failing-allocator child processes enumerating every growth request; Coq theorem on Tape.v with allocation oracle",
    text="Every growth request of random tape histories and of roaming programs on all backends is failed in turn (global allocator returning null); the process must end by SIGABRT/panic. Model side: C17_alloc_fail_safe/_stops proved for all histories and oracles.",
    note="The theorem is about the Tape.v model; the implementation's abort path is observed, not proved.", ref="§4 C17"),
+ "C10": dict(cat="exploration", tech="execute_unsafe under guard pages on a region sized from the canonical pointer excursion (extracted machine) + program length",
+   text="execute_unsafe (bytecode interpreter, JIT; levels 0-3; debug+release) on a context pre-grown to the canonical excursion plus a margin of the program's length, with the region and all other allocations flush against guard pages; must not fault and must produce the canonical events.",
+   note="Observation, not proof; first exercise of the unchecked entry point.", ref="§4 C10"),
+ "C11": dict(cat="translation_validation", tech="extracted Coq checker BCWf.bc_wf run on every bytecode the current build generates or holds",
+   text="Every bytecode produced by translate(..,2,true)/(..,11,false) at levels 0-3 and the copy each executor holds is checked by the Coq-defined executable checker bc_wf (branch targets, operand window containing 0, temp indices, must-define dataflow to a fixpoint, liveness vs live bits of non-branch instructions, MemZero aliasing rules, fusion flag). A rejected program is the replay.",
+   note="The checker is defined in Coq and extracted; its soundness theorem (wf_safe) is not proved yet, so this is per-program validation by a Coq-defined checker, not a certified one. bc.rs is not modelled.", ref="§4 C11"),
+ "C12": dict(cat="exploration", tech="Parse.v exact model of Program::parse: structural IR equality and error kind/position vs the property's spec; comment-insensitivity pairs; executors' acceptance",
+   text="Random Unicode strings (all planes), comment interleavings, depth-500 nesting and one-edit unbalancings: Program::parse must accept iff balanced with the specified error kind/char position, produce exactly the IR of the Coq model Parse.v, be insensitive to non-command characters, and every executor must accept/reject/behave accordingly without panicking.",
+   note="Theorems parse_accepts_iff / parse_error_spec not proved yet; until then exploration with a Coq-defined executable model.", ref="§4 C12"),
  "C14": dict(cat="proof", tech="Coq proof (Cell.v, Props/C14.v) + differential correspondence model<->CellType",
    text="Universal Coq theorems (all widths w>=1, all operands) for wrapping_div (least solution / none), wrapping_inv, wrapping_pow and the conversions, about a hand-written Gallina model mirroring src/lib.rs; the model is tied to the current source on every run by running the extracted model and the public CellType methods (debug and release) on the same cases, exhaustively at 8 bits.",
    note="Trusted: Coq kernel, extraction (ExtrOcamlBasic), ocaml/driver.ml, harness; Cell.v is hand-written (modelled, tied by correspondence). No axioms.", ref="§4 C14"),
@@ -53,9 +68,12 @@ m = {
  "not_applicable": [],
  "notes": "Technique family: machine-checked proof in Coq; see DESIGN.md."
 }
+import importlib, sys
+sys.path.insert(0, V)
 for p in ALL:
     if p in CHECKS:
         c = CHECKS[p]
+        c["cat"] = importlib.import_module("tools.props." + p.lower()).LEVEL
         m["checks"].append({"property_id": p, "quick_cmd": "./check %s --tier quick" % p, "thorough_cmd": "./check %s --tier thorough" % p,
             "evidence_file": "evidence/%s.json" % p, "replay_cmd_template": "./check %s --replay {path}" % p, "engine": "coq",
             "level_claimed": {"category": c["cat"], "text": c["text"], "design_ref": c["ref"]}, "level_note": c["note"], "technique": c["tech"]})
